@@ -1186,6 +1186,9 @@ func (nm *NodeMachine) CheckState() error {
 	if sum.Cmp(s.Total) != 0 {
 		return fmt.Errorf("model bug or conservation broken: sum(U)+pending fees=%s total=%s", sum, s.Total)
 	}
+	if err := nm.CheckSelectUtxos(); err != nil {
+		return err
+	}
 	// irreversible height (C17)
 	if nm.Window > 0 && nm.Irrev > 0 && nm.IrrevBlk >= 0 {
 		if a := m.ancestorAt(nm.Ptr, nm.Irrev); a != nm.IrrevBlk {
@@ -1276,10 +1279,17 @@ func (nm *NodeMachine) CheckImage() error {
 	if a, b := txSet(ip), txSet(lp); a != b {
 		return fmt.Errorf("pool of the running node %s differs from the reopened one %s", b, a)
 	}
-	// SelectUtxos validity (the order is the code's choice)
+	return nm.CheckSelectUtxos()
+}
+
+// CheckSelectUtxos: SelectUtxos (as every client calls it before assembling a transaction) returns
+// only outputs that exist, unfrozen, each once, with the right amounts, and finds enough whenever
+// the unfrozen outputs suffice. The selection order is the code's choice.
+func (nm *NodeMachine) CheckSelectUtxos() error {
+	n := nm.N
 	s := nm.PoolState()
 	h := nm.ledgerHeight()
-	for i := 0; i < 7; i++ {
+	for i := 0; i < 8; i++ {
 		addr := Ring[i].Address
 		avail := big.NewInt(0)
 		for _, u := range s.UtxosOf(addr) {
@@ -1307,6 +1317,10 @@ func (nm *NodeMachine) CheckImage() error {
 		}
 		if sum.Cmp(total) != 0 || total.Cmp(avail) < 0 {
 			return fmt.Errorf("SelectUtxos(%s): total %s, sum of returned %s, needed %s", shortAddr(addr), total, sum, avail)
+		}
+		// one more than everything must not be found
+		if _, _, _, err := n.State.SelectUtxos(addr, new(big.Int).Add(avail, big.NewInt(1)), false, false); err == nil {
+			return fmt.Errorf("SelectUtxos(%s) finds %s+1 although the unfrozen outputs only sum to %s", shortAddr(addr), avail, avail)
 		}
 	}
 	return nil
